@@ -388,6 +388,8 @@ static void judge(const Subject &S, const std::string &ename, bool must_ill, con
 	{
 		R->ok(false);
 		R->counters[got ? "unspecified_accepted" : "unspecified_refused"]++;
+		if (got && R->args.has("list-unspec"))
+			printf("{\"t\":\"note\",\"unspec-accepted\":\"%s %s\"}\n", S.cls.c_str(), jesc(ename).c_str());
 		return;
 	}
 	bool well = f.empty();
